@@ -169,6 +169,20 @@ fn local(n: &str) -> String {
 /// String-typing of text-only children, one struct per other position.  `exact` = C03 (iff), otherwise C01 (soundness:
 /// nothing required that is missing somewhere, nothing single that repeats, every name has a field).
 /// Only for plain names (no prefix, no renaming): otherwise no verdict.
+thread_local! {
+    /// (attribute prefix, text identifier) of the options the rendering under comparison was made with
+    static RENDER_NAMES: std::cell::Cell<(&'static str, &'static str)> = std::cell::Cell::new(("@", "$text"));
+}
+/// the same comparison for a rendering made with other serde names for attributes and text
+fn cmp_rendered_custom(root: &Element<String>, s: &oracle::S, exact: bool) -> Option<String> {
+    let mut o = Options::quick_xml_de();
+    o.attribute_prefix = "at.".into();
+    o.text_identifier = "#txt".into();
+    RENDER_NAMES.with(|c| c.set(("at.", "#txt")));
+    let r = cmp_rendered(&root.to_serde_struct(&o), s, exact);
+    RENDER_NAMES.with(|c| c.set(("@", "$text")));
+    r.map(|e| format!("with attribute prefix \"at.\" and text identifier \"#txt\": {e}"))
+}
 fn cmp_rendered(out: &str, s: &oracle::S, exact: bool) -> Option<String> {
     let structs = parse_rendered_full(out);
     if structs.is_empty() {
@@ -205,7 +219,7 @@ fn cmp_rendered(out: &str, s: &oracle::S, exact: bool) -> Option<String> {
         let fields = &defs[0].1;
         let mut used = vec![false; fields.len()];
         for (m, a) in &s.attrs {
-            let key = format!("@{}", local(a));
+            let key = format!("{}{}", RENDER_NAMES.with(|c| c.get()).0, local(a));
             let hits: Vec<usize> = fields.iter().enumerate().filter(|(_, f)| f.2 == key).map(|(i, _)| i).collect();
             if hits.len() != 1 {
                 return Some(format!("{p}: {} fields bound to the XML name of attribute {a:?} (expected serde name {key:?}) in struct {sname}", hits.len()));
@@ -220,7 +234,8 @@ fn cmp_rendered(out: &str, s: &oracle::S, exact: bool) -> Option<String> {
                 return Some(format!("{p}: attribute {a:?} is rendered as {ty} although every occurrence has it"));
             }
         }
-        let text_hits: Vec<usize> = fields.iter().enumerate().filter(|(_, f)| f.2 == "$text").map(|(i, _)| i).collect();
+        let text_id = RENDER_NAMES.with(|c| c.get()).1;
+        let text_hits: Vec<usize> = fields.iter().enumerate().filter(|(_, f)| f.2 == text_id).map(|(i, _)| i).collect();
         if s.text && text_hits.is_empty() {
             return Some(format!("{p}: occurrences have character data but struct {sname} has no text field"));
         }
@@ -322,6 +337,9 @@ fn check_docs(prop: &str, docs: &[Vec<u8>]) -> Option<String> {
                     return Some(format!("rendered structs: {e}"));
                 }
             }
+            if let Some(e) = cmp_rendered_custom(&root, &infer(&occ), false) {
+                return Some(format!("rendered structs: {e}"));
+            }
             None
         }
         "C03" => {
@@ -332,6 +350,9 @@ fn check_docs(prop: &str, docs: &[Vec<u8>]) -> Option<String> {
                 if let Some(e) = cmp_rendered(&root.to_serde_struct(&o), &infer(&occ), true) {
                     return Some(format!("rendered structs: {e}"));
                 }
+            }
+            if let Some(e) = cmp_rendered_custom(&root, &infer(&occ), true) {
+                return Some(format!("rendered structs: {e}"));
             }
             None
         }
@@ -570,6 +591,10 @@ fn threshold_family() -> Vec<Vec<Node>> {
 fn sequences(tier: &str, seed: u64, mut f: impl FnMut(&[Vec<u8>]) -> bool) {
     let st = Style::default();
     let st_long = Style { short_empty: false, text_last: true, ..Style::default() };
+    // the same documents with comments (also as the only content of an element) and with a prolog: the schema must not notice
+    let st_comm = Style { short_empty: false, comments: true, ..Style::default() };
+    let st_prolog = Style { decl: true, doctype: true, pi: true, ..Style::default() };
+    let styles = [&st, &st_long, &st_comm, &st_prolog];
     let thorough = tier == "thorough";
     // singles
     let mut singles: Vec<Node> = Vec::new();
@@ -577,7 +602,7 @@ fn sequences(tier: &str, seed: u64, mut f: impl FnMut(&[Vec<u8>]) -> bool) {
     singles.extend(docs(if thorough { 7 } else { 6 }, &lab_names(), false));
     singles.extend(docs(if thorough { 4 } else { 3 }, &lab_attrs(), true));
     for (i, d) in singles.iter().enumerate() {
-        let x = write_doc(d, if i % 2 == 0 { &st } else { &st_long }).into_bytes();
+        let x = write_doc(d, styles[i % 4]).into_bytes();
         if f(&[x]) {
             return;
         }
@@ -597,7 +622,7 @@ fn sequences(tier: &str, seed: u64, mut f: impl FnMut(&[Vec<u8>]) -> bool) {
                 continue;
             }
             let xa = write_doc(a, &st).into_bytes();
-            let xb = write_doc(b, if (i + j) % 2 == 0 { &st } else { &st_long }).into_bytes();
+            let xb = write_doc(b, styles[(i + 3 * j) % 4]).into_bytes();
             if f(&[xa, xb]) {
                 return;
             }
@@ -611,7 +636,7 @@ fn sequences(tier: &str, seed: u64, mut f: impl FnMut(&[Vec<u8>]) -> bool) {
     for a in &tiny {
         for b in &tiny {
             for c in &tiny {
-                let xs = [write_doc(a, &st).into_bytes(), write_doc(b, &st_long).into_bytes(), write_doc(c, &st).into_bytes()];
+                let xs = [write_doc(a, &st).into_bytes(), write_doc(b, &st_long).into_bytes(), write_doc(c, &st_comm).into_bytes()];
                 if f(&xs) {
                     return;
                 }
@@ -619,7 +644,7 @@ fn sequences(tier: &str, seed: u64, mut f: impl FnMut(&[Vec<u8>]) -> bool) {
         }
     }
     for seq in threshold_family() {
-        for stl in [&st, &st_long] {
+        for stl in [&st, &st_long, &st_comm, &st_prolog] {
             let xs: Vec<Vec<u8>> = seq.iter().map(|d| write_doc(d, stl).into_bytes()).collect();
             if f(&xs) {
                 return;
@@ -672,7 +697,7 @@ fn sequences(tier: &str, seed: u64, mut f: impl FnMut(&[Vec<u8>]) -> bool) {
         let mut xs = Vec::new();
         for _ in 0..k {
             let d = random_doc(&mut rngw, &["a", "b", "c", "d", "e", "f"], &["u", "v", "w", "x", "y", "z"], 4, 16);
-            let s = Style { short_empty: rngw.chance(1, 2), text_last: rngw.chance(1, 2), ..Style::default() };
+            let s = Style { short_empty: rngw.chance(1, 2), text_last: rngw.chance(1, 2), comments: rngw.chance(1, 4), doctype: rngw.chance(1, 5), decl: rngw.chance(1, 5), pi: rngw.chance(1, 6), ..Style::default() };
             xs.push(write_doc(&d, &s).into_bytes());
         }
         if f(&xs) {
@@ -701,7 +726,7 @@ fn sequences(tier: &str, seed: u64, mut f: impl FnMut(&[Vec<u8>]) -> bool) {
         let mut xs = Vec::new();
         for _ in 0..k {
             let d = random_doc(&mut rng, &["a", "b", "c"], &["x", "y", "z"], 3, 9);
-            let s = Style { short_empty: rng.chance(1, 2), text_last: rng.chance(1, 2), ..Style::default() };
+            let s = Style { short_empty: rng.chance(1, 2), text_last: rng.chance(1, 2), comments: rng.chance(1, 4), doctype: rng.chance(1, 5), decl: rng.chance(1, 5), pi: rng.chance(1, 6), ..Style::default() };
             xs.push(write_doc(&d, &s).into_bytes());
         }
         if f(&xs) {
@@ -784,7 +809,7 @@ fn search_tree_prop(prop: &str, tier: &str, seed: u64) {
         }
     });
     let _ = found;
-    stats.print("document sequences parse(D1), extend(D2..): exhaustive small forests under a root (names a,b; attribute lists over x,y,z; text/CDATA; both empty-element spellings) as singles, pairs, triples, a threshold family (1-9 same-named children then an empty occurrence, 2-7 parent occurrences with the child absent in one, in one document and across documents), seven big documents (300 distinct siblings / attributes / repetitions, depth 40), seeded random wide sequences (up to 4 documents, 16 nodes, depth 4) and seeded random sequences of 1-3 documents with up to 9 nodes and depth 3; distinct = distinct input texts", &sample);
+    stats.print("document sequences parse(D1), extend(D2..), written in four spellings (plain; <x></x> with trailing text; with comments, also as the only content of an element; with declaration + DOCTYPE + PIs) and rendered with the default and with custom serde names (attribute prefix, text identifier): exhaustive small forests under a root (names a,b; attribute lists over x,y,z; text/CDATA; both empty-element spellings) as singles, pairs, triples, a threshold family (1-9 same-named children then an empty occurrence, 2-7 parent occurrences with the child absent in one, in one document and across documents), seven big documents (300 distinct siblings / attributes / repetitions, depth 40), seeded random wide sequences (up to 4 documents, 16 nodes, depth 4) and seeded random sequences of 1-3 documents with up to 9 nodes and depth 3; distinct = distinct input texts", &sample);
 }
 
 // ------------------------------------------------------------------------------------------------ C05
